@@ -330,7 +330,9 @@ func init() {
 	})
 	reg("(net.IP).String", func(ex *Exec, st *State, instr ssa.Instruction, args []Value) Value { return ex.fresh("ip.str", SStr) })
 	reg("(net.HardwareAddr).String", func(ex *Exec, st *State, instr ssa.Instruction, args []Value) Value { return ex.fresh("mac.str", SStr) })
-	reg("(*net.UDPAddr).String", func(ex *Exec, st *State, instr ssa.Instruction, args []Value) Value { return ex.fresh("udpaddr.str", SStr) })
+	reg("(*net.UDPAddr).String", func(ex *Exec, st *State, instr ssa.Instruction, args []Value) Value {
+		return ex.fresh("udpaddr.str", SStr)
+	})
 	libGlobals["net.IPv4bcast"] = func(ex *Exec, st *State, t types.Type) Value {
 		vals := make([]*Term, 16)
 		for i := 0; i < 10; i++ {
